@@ -995,3 +995,50 @@ def semantic_len(F, body, is_closure, fam, param):
         if a["ret"][2] != b["ret"][2]:
             return False, "for n in [%d, %d] it yields %d where the length of %s is %d" % (lo, hi, a["ret"][2], (fam, param), b["ret"][2])
     return True, "equal on every cell of the whole domain"
+
+
+# ---- exact fields of one code over its whole parameter range (fallback when a shape rule does not recognise a writer) -----------
+def fields_all_params(F, fs, code):
+    """-> (ok, text): D3-style exact comparison of the code's writer with the documented fields for every value, both
+    endiannesses, over the full parameter range (as far as the residue-class method reaches)"""
+    import multiprocessing as mp
+    _F[fs] = F
+    cfgs = []
+    probs = []
+    if code == "golomb":
+        todo = [(fs, b) for b in list(range(1, 65)) + [100, 127, 128, 129, 1000] if (fs, b) not in _gcache]
+        with mp.get_context("fork").Pool(16) as pool:
+            for b, res in pool.imap_unordered(_work_golomb, todo, chunksize=2):
+                _gcache[(fs, b)] = res
+        for b in list(range(1, 65)) + [100, 127, 128, 129, 1000]:
+            r = _gcache[(fs, b)]
+            probs += [p for p in r["problems"] if "documented" in p or "evaluated" in p or "internal" in p or "fails" in p]
+        return (not probs), ("; ".join(probs[:2]) or "exact fields verified for b in 1..=64 and 100, 127..129, 1000")
+    for e, en in ((BE, "be"), (LE, "le")):
+        if code in ("gamma", "delta"):
+            cfgs += [c for c in field_configs("thorough") if c[1] == code and c[0].endswith(en)]
+        elif code == "zeta":
+            for k in range(1, 64):
+                cfgs.append(("fa.zeta%d.%s" % (k, en), "zeta", (k,), "<B as codes::zeta::ZetaWriteParam<%s>>::write_zeta_param" % e, None, {"E": e, "USE_TABLE": False}, (("usize", k),), U64MAX, True))
+        elif code in ("pi", "rice"):
+            path = "codes::pi::PiWrite::write_pi" if code == "pi" else "codes::rice::RiceWrite::write_rice"
+            for k in range(0, 64):
+                cfgs.append(("fa.%s%d.%s" % (code, k, en), code, (k,), path, None, {"E": e}, (("usize", k),), U64MAX, code != "rice"))
+        elif code == "exp_golomb":
+            for k in range(0, 6):
+                for r in range(1 << k):
+                    cfgs.append(("fa.exp_golomb%d[r=%d].%s" % (k, r, en), "exp_golomb_class", (k, r), "codes::exp_golomb::ExpGolombWrite::write_exp_golomb", None,
+                                 {"E": e}, (("usize", k),), (U64MAX - 1 - r) >> k, True, (1 << k, r)))
+        elif code == "minimal_binary":
+            for u in list(range(1, 131)) + [255, 256, 257, 1000, (1 << 32) - 1, (1 << 32), (1 << 63) + 5, (1 << 64) - 1]:
+                cfgs.append(("fa.minimal_binary%d.%s" % (u, en), "minimal_binary", (u,), "codes::minimal_binary::MinimalBinaryWrite::write_minimal_binary", None,
+                             {"E": e}, (("u64", u),), u - 1, True))
+        else:
+            return None, "no whole-range comparison for %s" % code
+    with mp.get_context("fork").Pool(16) as pool:
+        for key, r in pool.imap_unordered(_work_fields, [(fs,) + tuple(c) for c in cfgs], chunksize=2):
+            if "unsupported" in r:
+                probs.append("%s: %s" % (key, r["unsupported"]))
+            elif r["field_problems"] or r["domain"] or not r["pieces"]:
+                probs.append("%s: %s" % (key, "; ".join(r["field_problems"]) or r["domain"] or "nothing compared"))
+    return (not probs), ("; ".join(probs[:2]) or "exact fields verified on %d configurations (whole parameter range, both endiannesses)" % len(cfgs))
